@@ -2,14 +2,14 @@
 """Regenerates MANIFEST.json from checkcfg.PROPS (run after editing checkcfg.py)."""
 import json, os, sys
 sys.path.insert(0, os.path.dirname(os.path.abspath(__file__)))
-from checkcfg import PROPS, MANIFEST_TEXT
+from checkcfg import PROPS
 props = [json.loads(l) for l in open(os.path.join(os.path.dirname(os.path.abspath(__file__)), "properties.jsonl"))]
 checks, na = [], []
 for p in props:
     pid = p["id"]
     if pid in PROPS:
         c = PROPS[pid]
-        t = MANIFEST_TEXT[pid]
+        t = c
         checks.append({
             "property_id": pid,
             "quick_cmd": "./check %s --tier quick" % pid,
